@@ -408,9 +408,30 @@ def row_strategy():
     })
 
 
+def _expand_rows(p):
+    """40-64 rows built from a few drawn rows and a drawn seed (drawing every cell of a large table
+    through Hypothesis costs far more than running the check on it)."""
+    import random
+    base, seed = p
+    r = random.Random(seed)
+    strings = [row[c] for row in base for c in ("s1", "s2") if row[c] is not None] + PAYLOADS + LONG_STRINGS[:2] + ["", "a", "B"]
+    dom = {"i1": INT_VALUES + BIG_INTS[:3], "i2": INT_VALUES, "r1": [k / 4.0 for k in REAL_QUARTERS], "s1": strings, "s2": strings,
+           "b1": [True, False], "t1": DT_GRID, "d1": DATE_GRID}
+    rows = [dict(x) for x in base]
+    for _ in range(r.randrange(40, 65) - len(rows)):
+        if r.random() < 0.3:
+            row = dict(r.choice(base))
+            c = r.choice(sorted(dom))
+            row[c] = None if r.random() < 0.2 else r.choice(dom[c])
+        else:
+            row = {c: (None if r.random() < 0.2 else r.choice(v)) for c, v in dom.items()}
+        rows.append(row)
+    return rows
+
+
 def rows_strategy(max_rows=6):
     few = st.lists(row_strategy(), min_size=1, max_size=max_rows)
-    many = st.lists(row_strategy(), min_size=40, max_size=64)
+    many = st.tuples(few, st.integers(0, 2 ** 30)).map(_expand_rows)
     return st.one_of(*([few] * 49 + [many]))
 
 
